@@ -70,6 +70,9 @@ pub enum Merge {
 
 #[derive(Clone, Debug)]
 pub struct Case {
+    /// the (last) parser error arrives in the middle of the run (lazy parser), followed by
+    /// ParsingFinished, instead of before the first feature
+    pub perr_mid: bool,
     pub merge: Merge,
     pub t: ScenCase,
     pub u: Option<(ScenCase, Placement)>,
@@ -315,6 +318,29 @@ pub fn build(case: &Case) -> Option<(Config, Vec<Ev>)> {
                     *st = StepEv::Failed("NotFound".into(), None);
                 }
             }
+        }
+    }
+    if case.perr_mid && case.perrs > 0 {
+        // move the last parser error and ParsingFinished behind the first scenario event
+        let pe = s.iter().rposition(|e| matches!(e, Ev::ParseErr(_))).expect("parser error");
+        let err = s.remove(pe);
+        let pf = s.iter().position(|e| matches!(e, Ev::ParsingFinished { .. })).expect("ParsingFinished");
+        let pfe = s.remove(pf);
+        // (behind the first step / hook result if there is one: the reporters have opened
+        // the feature's entry by then)
+        let first_result = s.iter().position(|e| {
+            matches!(
+                e,
+                Ev::Sc { ev: ScEv::Step(_, _, _, StepEv::Passed | StepEv::Skipped | StepEv::Failed(..)), .. }
+                    | Ev::Sc { ev: ScEv::Hook(_, HookEv::Passed | HookEv::Failed(..)), .. }
+            )
+        });
+        match first_result.or_else(|| s.iter().position(|e| matches!(e, Ev::Sc { .. }))) {
+            Some(at) => {
+                s.insert(at + 1, err);
+                s.insert(at + 2, pfe);
+            }
+            None => return None,
         }
     }
     // payloads / world ids in the form the realized events render to
@@ -738,6 +764,7 @@ pub fn cases(thorough: bool) -> Vec<Case> {
                                                 }
                                                 for merge in merges {
                                                     out.push(Case {
+                                                        perr_mid: false,
                                                         merge,
                                                         t: t.clone(),
                                                         u: u.clone(),
@@ -749,7 +776,21 @@ pub fn cases(thorough: bool) -> Vec<Case> {
                                                     });
                                                 }
                                             }
+                                            if *perrs > 0 && transform == Transform::None && u.is_none() {
+                                                out.push(Case {
+                                                    perr_mid: true,
+                                                    merge: Merge::Seq,
+                                                    t: t.clone(),
+                                                    u: u.clone(),
+                                                    fbg: fbg.clone(),
+                                                    before,
+                                                    after,
+                                                    perrs: *perrs,
+                                                    transform,
+                                                });
+                                            }
                                             out.push(Case {
+                                                perr_mid: false,
                                                 merge: Merge::Seq,
                                                 t: t.clone(),
                                                 u: u.clone(),
